@@ -1150,7 +1150,13 @@ class SetPartition(SetIndex):
             set_name,
             self.frame._meta.columns.dtype,
             kwargs,
-            self.user_divisions,
+            # Carry the divisions in the expression itself: the cache they were
+            # computed into does not travel with a pickled plan
+            (
+                self.user_divisions
+                if self.user_divisions is not None
+                else tuple(self._divisions())
+            ),
         )
         return SortIndexBlockwise(index_set)
 
